@@ -41,7 +41,7 @@ pub fn check() -> Check {
 
 fn prepare(_tier: Tier, _seed: u64, _dir: &Path) -> Result<Value, PrepError> {
     let t0 = std::time::Instant::now();
-    let out = Command::new("/verif/tools/build_features.sh").output().map_err(|e| PrepError::Inconclusive(format!("cannot run build_features.sh: {}", e)))?;
+    let out = Command::new(vmodel::rooted("tools/build_features.sh")).output().map_err(|e| PrepError::Inconclusive(format!("cannot run build_features.sh: {}", e)))?;
     if out.status.success() {
         return Ok(json!({"feature_builds": 8, "build_s": (t0.elapsed().as_secs_f64() * 10.0).round() / 10.0}));
     }
@@ -49,7 +49,7 @@ fn prepare(_tier: Tier, _seed: u64, _dir: &Path) -> Result<Value, PrepError> {
     let mut detail = String::new();
     for l in stdout.lines() {
         if let Some(m) = l.strip_prefix("FEATURE-BUILD-FAILED mask=") {
-            let log = std::fs::read_to_string(format!("/verif/harness/target/feat-{}.log", m)).unwrap_or_default();
+            let log = std::fs::read_to_string(vmodel::rooted(&format!("harness/target/feat-{}.log", m))).unwrap_or_default();
             let errs: Vec<&str> = log.lines().filter(|l| !l.trim_start().starts_with("Compiling")).collect();
             let n = errs.len();
             detail.push_str(&format!("--- features {} ---\n{}\n", mask_name(m.parse().unwrap_or(0)), errs[n.saturating_sub(25)..].join("\n")));
@@ -89,7 +89,7 @@ impl Builds {
     fn start() -> Result<Self, String> {
         let mut servers = Vec::new();
         for m in 0..8 {
-            servers.push(GenServer::start(&format!("/verif/harness/target/feat-{}/release/vsession", m))?);
+            servers.push(GenServer::start(&vmodel::rooted(&format!("harness/target/feat-{}/release/vsession", m)))?);
         }
         Ok(Builds { servers })
     }
